@@ -116,6 +116,26 @@ Theorem C20_enqueued_is_canonical : forall root cwd d prm full,
 Proof. exact pc_decide_enqueued_canonical. Qed.
 Print Assumptions C20_enqueued_is_canonical.
 
+(* ... at the level of the endpoint's observable: for every request, the TEXT of
+   every queue entry ([pc_entry_text]) resolves to the very path that was checked
+   and is byte for byte its own canonicalisation ([pc_observe] = what the
+   correspondence check prints per entry) ... *)
+Theorem C20_enqueued_text_is_canonical : forall root cwd api upd rq st enq p,
+  pc_dir_at root [] -> pc_dir_at root cwd -> pc_nonul_names root ->
+  pc_handle root cwd api upd rq = Some (st, enq) -> In p enq ->
+  pc_observe root cwd p = (inr p, true).
+Proof. exact pc_handle_enqueued_text_canonical. Qed.
+Print Assumptions C20_enqueued_text_is_canonical.
+
+(* ... and a canonical text is the rendering of a physical path: no component of it
+   is a symbolic link, "." or "..", so re-pointing a link cannot move what it names *)
+Theorem C20_canonical_text_is_physical : forall root cwd s,
+  pc_dir_at root [] -> pc_dir_at root cwd ->
+  pc_text_canonical root cwd s = true ->
+  exists p, s = pc_render p /\ pc_canon root cwd s = inr p /\ pc_physical root p.
+Proof. exact pc_text_canonical_physical. Qed.
+Print Assumptions C20_canonical_text_is_physical.
+
 (* "percent-encoded": every byte string f is deliverable as the `file` value,
    so the theorems above, which range over all raw query strings, cover every
    name an attacker can choose. *)
@@ -143,3 +163,21 @@ Example C20_example :
   run "file=/srv/upd/a.mrt" = Some (400, []) /\
   run "file=a.mrt/" = Some (400, []).
 Proof. vm_compute. repeat split; try reflexivity. eexists; reflexivity. Qed.
+
+(* non-vacuity of the text theorems on the same tree: the entry of `file=in` is
+   observed as (resolves to /srv/upd/a.mrt, canonical); the un-resolved spellings
+   of the same file - through the link `in`, through the link `ulnk`, with "..",
+   with a doubled slash - resolve to the same place but are NOT canonical *)
+Example C20_text_example :
+  let fs := PDir [(c20_b "srv", PDir [
+              (c20_b "upd", PDir [(c20_b "a.mrt", PFile); (c20_b "sub", PDir [(c20_b "b.mrt", PFile)]);
+                                  (c20_b "in", PLink (c20_b "sub/../a.mrt")); (c20_b "esc", PLink (c20_b "../out"))]);
+              (c20_b "out", PDir [(c20_b "secret", PFile)]);
+              (c20_b "ulnk", PLink (c20_b "/srv/upd/"))])] in
+  let a := [c20_b "srv"; c20_b "upd"; c20_b "a.mrt"] in
+  pc_observe fs [] a = (inr a, true) /\
+  pc_entry_text a = c20_b "/srv/upd/a.mrt" /\
+  forallb (fun t => match pc_canon fs [] (c20_b t) with inr p => pc_path_eqb p a | inl _ => false end
+                    && negb (pc_text_canonical fs [] (c20_b t)))
+          ["/srv/upd/in"; "/srv/ulnk/a.mrt"; "/srv/upd/sub/../a.mrt"; "/srv/upd//a.mrt"] = true.
+Proof. vm_compute. repeat split; reflexivity. Qed.
